@@ -2,6 +2,8 @@ package evm
 
 import (
 	"fmt"
+	"sort"
+	"strings"
 
 	"github.com/sarchlab/akita/v5/mem/memcontrolprotocol"
 
@@ -385,3 +387,31 @@ func init() {
 
 // ShrinkCfg exposes the stack shrinker to other checks.
 func ShrinkCfg(c Cfg) []Cfg { return shrinkCfg(c) }
+
+// AttachSteps attaches the control/update driver when the configuration has a script.
+func (w *World) AttachSteps() {
+	if len(w.C.Steps) > 0 {
+		w.attachDriver(w.C.Steps)
+	}
+}
+
+// MemFingerprint renders what the memory stub below an address translator holds.
+func (w *World) MemFingerprint() string {
+	if w.Mem == nil {
+		return ""
+	}
+
+	addrs := make([]uint64, 0, len(w.Mem.Writes))
+	for a := range w.Mem.Writes {
+		addrs = append(addrs, a)
+	}
+
+	sort.Slice(addrs, func(i, j int) bool { return addrs[i] < addrs[j] })
+
+	var b strings.Builder
+	for _, a := range addrs {
+		fmt.Fprintf(&b, "%x:%02x ", a, w.Mem.Writes[a])
+	}
+
+	return b.String()
+}
